@@ -25,8 +25,7 @@ Definition field_default_status (E : env) (f : pfield) : sexp :=
 Definition guards_of_type (s : schema) (cs : customs) (snake : bool) (d : string * tdef) : list sexp :=
   match snd d with
   | DInput fs =>
-      [L [A (fst d); sB (names_ok_fields snake fs);
-          L (map (fun f => L [A (i_name f); sB (g21 (i_type f) true)]) fs)]]
+      [L [A (fst d); sB (names_ok_fields snake fs)]]
   | _ => []
   end.
 
@@ -49,8 +48,7 @@ Definition run_inputs (e : sexp) : sexp :=
   | L [A "ann"; sch; cu; t] =>
       match schema_of_sexp sch, customs_of_sexp cu, gtype_of_sexp t with
       | Some s, Some cs, Some t' =>
-          L [ann_to_sexp (fst (parse_input_field_type s cs t' true)); ann_to_sexp (image s cs t' true);
-             sB (g21 t' true)]
+          L [ann_to_sexp (fst (parse_input_field_type s cs t' true)); ann_to_sexp (image s cs t' true)]
       | _, _, _ => sErr "ann args"
       end
   | L [A "coerce"; sch; t; j] =>
@@ -72,6 +70,11 @@ Definition run_inputs (e : sexp) : sexp :=
             L [res_to_sexp (validate FUEL E a j'); sB (accepts FUEL E a j')]
         | _, _ => sErr "validate args"
         end)
+  | L [A "rename"; sch; sn; t; j] =>
+      match schema_of_sexp sch, dB sn, gtype_of_sexp t, json_of_sexp j with
+      | Some s, Some snake, Some t', Some j' => json_to_sexp (rename FUEL s snake t' j')
+      | _, _, _, _ => sErr "rename args"
+      end
   | L [A "field_defaults"; sch; cu; sn; A ty] =>
       with_ctx sch cu sn (fun s cs snake =>
         let E := env_of s cs snake in
